@@ -123,8 +123,9 @@ func main() {
 		}
 		return colls
 	}
-	mr1, mr4 := lib.LoadModelResource("MR1"), lib.LoadModelResource("MR4")
-	forest, err := lib.NewForest(mr1, mr4)
+	// resource numbers as in FPMachine!Forest: MR1, MR4, MR2; the input of every program is {MR1, MR2}
+	mr1, mr4, mr2 := lib.LoadModelResource("MR1"), lib.LoadModelResource("MR4"), lib.LoadModelResource("MR2")
+	forest, err := lib.NewForest(mr1, mr4, mr2)
 	if err != nil {
 		lib.Fatal("%v", err)
 	}
@@ -135,7 +136,7 @@ func main() {
 	// the values both sides hold, as the implementation reads them back
 	back := map[string]any{}
 	for n, c := range build() {
-		out := lib.EvalOutcome(forest, "%"+n, lib.AsResources(mr1), nil, []fhirpath.EvaluateOption{evalopts.EnvVariable(n, c)})
+		out := lib.EvalOutcome(forest, "%"+n, lib.AsResources(mr1, mr2), nil, []fhirpath.EvaluateOption{evalopts.EnvVariable(n, c)})
 		back[n] = out
 	}
 	if err := w.Write(map[string]any{"id": "vars", "kind": "vars", "vars": back}); err != nil {
@@ -148,8 +149,8 @@ func main() {
 		for _, n := range names {
 			opts = append(opts, evalopts.EnvVariable(n, colls[n]))
 		}
-		snap := lib.TakeSnapshot([]proto.Message{mr1, mr4}, colls)
-		out, out2 := lib.EvalTwice(forest, g.Text, lib.AsResources(mr1), nil, func() []fhirpath.EvaluateOption { return opts })
+		snap := lib.TakeSnapshot([]proto.Message{mr1, mr4, mr2}, colls)
+		out, out2 := lib.EvalTwice(forest, g.Text, lib.AsResources(mr1, mr2), nil, func() []fhirpath.EvaluateOption { return opts })
 		mut := snap.Report()
 		mut["reeval_differs"] = !lib.SameOutcome(out, out2)
 		if err := w.Write(map[string]any{"id": g.ID, "ast": g.Ast, "src": g.Text, "out": out, "kind": "prog", "mut": mut,
